@@ -71,3 +71,10 @@ claim("C15", "async-aware ordering rules (await points), control-dependence on f
       "which drains pending writes first and enqueues all but in-memory-only pieces, that the engine tests `active` before allocating or "
       "submitting and close deactivates then waits, and that Drop and close() run the same close_inner with the cache's own fields. "
       "Capacity of the flush buffer and reopen contents are not decided.", "DESIGN.md §4 C15")
+claim("C09", "typestate transitions as must-pass / exclusivity rules under the lock analysis, async-aware ordering, queue-end tables, affine normal forms",
+      "Decides that the block sets are mutated only by the manager's transition functions under the State lock, with the prescribed moves "
+      "(clean->writing or waiter queued; writing->evictable; evictable->reclaiming + exactly one reclaim task; reclaiming->exactly one of "
+      "{parked writer, clean queue}) and that every transition re-evaluates reclaim_if_needed on every path; that Drop of the reclaiming handle "
+      "returns the block and reclaim removes index entries, then completes cleaning, then releases; FIFO queue ends; re-insertions keep hash, "
+      "length and sequence and are skipped for keys that left the index; only blocks other than the batch's last are finished (affine form of "
+      "the index test). Liveness beyond re-arming is not decided.", "DESIGN.md §4 C09")
